@@ -275,6 +275,49 @@ def run_bpseq_text(ctx, res):
             res.fail("corr", "C01:text:parse:logging", {"bpseq_text": t}, "with the real logging call: %r" % (o,))
     res.sample({"family": "text:broken", "text": texts[-30][1], "impl": outs[-30]})
 
+    # legal records in another layout: the same records with leading / trailing blanks and tabs, tab or multi-blank
+    # separators, CRLF line ends and blank lines between them hold the same entries (the statement's "BpSeq.from_string")
+    for _ in range(ctx.pick(400, 4000)):
+        n = rng.randint(1, 8)
+        recs = [(i + 1, rng.choice("ACGUNacgu"), 0) for i in range(n)]
+        for _ in range(rng.randint(0, n // 2)):
+            a, b = rng.sample(range(n), 2)
+            if recs[a][2] == 0 and recs[b][2] == 0:
+                recs[a], recs[b] = (a + 1, recs[a][1], b + 1), (b + 1, recs[b][1], a + 1)
+        lines = []
+        for i, c, p in recs:
+            sep1, sep2 = rng.choice([" ", "\t", "   ", " \t"]), rng.choice([" ", "\t", "    "])
+            lines.append(rng.choice(["", "", " ", "\t", "   "]) + "%d%s%s%s%d" % (i, sep1, c, sep2, p) + rng.choice(["", "", " ", "  ", "\t", " \t "]))
+            if rng.random() < 0.1:
+                lines.append(rng.choice(["", "  "]))
+        end = rng.choice(["\n", "\r\n"])
+        text = end.join(lines) + rng.choice(["", end])
+        o = real_parse(text)
+        res.count("text:legal-layouts")
+        res.case(("layout", text), nontrivial=True)
+        want = ";".join("%d,%s,%d" % (i, hexs(c), p) for i, c, p in recs)
+        got = o[1].rsplit("|", 1)[0] if o[0] == "ok" else None
+        if got != want:
+            res.fail("spec", "C01:text:legal-record-not-read", {"bpseq_text": text, "family": "text:legal-layouts"},
+                     "records %s laid out with extra blanks / tabs / CRLF are read as %r" % (recs, o[1][:200] if o[0] == "ok" else o))
+    # more than 10 000 records: printing writes one line per record, and reading the text back gives the records
+    from rnapolis.common import BpSeq, Entry
+    for n in ([10001 + rng.randint(0, 30)] if ctx.quick else [10001 + rng.randint(0, 30), 20001 + rng.randint(0, 30), 9999, 10000]):
+        ents_big = [Entry(i + 1, "ACGU"[i % 4], 0) for i in range(n)]
+        ents_big[0], ents_big[n - 1] = Entry(1, "G", n), Entry(n, "C", 1)
+        big = BpSeq(ents_big)
+        text = call(lambda: str(big))
+        want = "\n".join("%d %s %d" % (e.index_, e.sequence, e.pair) for e in ents_big)
+        res.count("text:print:long(>10000 records)")
+        res.case(("print-long", n), nontrivial=True)
+        if text[0] != "ok" or text[1].strip("\n") != want:
+            bad = next((k for k, (a, b) in enumerate(zip(text[1].split("\n"), want.split("\n"))) if a != b), None) if text[0] == "ok" else None
+            res.fail("spec", "C01:text:print-long", {"family": "text:print-long", "n": n},
+                     "str() of %d records: %s" % (n, ("line %d is %r" % (bad + 1, text[1].split("\n")[bad][:60])) if bad is not None else text[1][:80] if text[0] == "ok" else text))
+        else:
+            back = call(lambda: BpSeq.from_string(text[1]))
+            if back[0] != "ok" or back[1] != big:
+                res.fail("spec", "C01:text:reparse-long", {"family": "text:print-long", "n": n}, "from_string(str(b)) != b for %d records" % n)
     # printing + model round trip on arbitrary entries
     ents = [gen_entries(rng) for _ in range(ctx.pick(1500, 20000))]
     pouts = parallel_map(real_print, ents)
@@ -593,7 +636,14 @@ def run_extra(ctx, res):
 def replay_extra(ctx, inp):
     """re-run one stored glue input; returns True when the input belonged to this module"""
     D = ctx.driver
-    if "writer" in inp:
+    if inp.get("family") == "text:print-long":
+        from rnapolis.common import BpSeq, Entry
+        n = inp["n"]
+        es = [Entry(i + 1, "ACGU"[i % 4], 0) for i in range(n)]
+        es[0], es[n - 1] = Entry(1, "G", n), Entry(n, "C", 1)
+        t = str(BpSeq(es)).split("\n")
+        print("%d records printed as %d lines; longest line %r" % (n, len([x for x in t if x]), max(t, key=len)[:80]))
+    elif "writer" in inp:
         w = inp["writer"]
         print("impl:", real_writer((w["n"], w["regions"], w["orders"])))
         print("model:", D.ask1("ss.mkdbw", str(w["n"]), rstr(w["regions"]), zstr(w["orders"])))
